@@ -232,8 +232,13 @@ class Gen:
                 if allowed:
                     if self.r.random() < 0.3:
                         # both branches leave: the join label is dead
-                        self.emit("if %s { %s; } else { %s; }" % (self.cond(), self.r.choice(["break", "continue"]),
-                                                                 self.r.choice(["break", "continue"])))
+                        if self.r.random() < 0.5:
+                            self.emit("if %s { %s; } else { %s; }" % (self.cond(), self.r.choice(["break", "continue"]),
+                                                                     self.r.choice(["break", "continue"])))
+                        else:
+                            self.emit("if %s { if %s { %s; } else { %s; } }" % (self.cond(), self.cond(), self.r.choice(["break", "continue"]),
+                                                                                self.r.choice(["break", "continue"])))
+                            self.emit("print(%s);" % self.expr())
                     else:
                         self.emit("if %s { %s; }" % (self.cond(), self.r.choice(["break", "continue"])))
             self.ind -= 1
@@ -310,7 +315,19 @@ class Gen:
             self.rootshape()
         elif r < 0.94 and self.in_fn:
             if self.o.nested_try_exit or self.try_depth_in_fn <= 1:
-                self.emit("if %s { return %s; }" % (self.cond(), self.num()))
+                k = self.r.random()
+                if k < 0.55:
+                    self.emit("if %s { return %s; }" % (self.cond(), self.num()))
+                elif k < 0.8:
+                    # guard clause whose inner if/else leaves on both arms: a dead join label directly
+                    # followed by the live join label of the outer if
+                    self.emit("if %s { if %s { return %s; } else { return %s; } }" % (self.cond(), self.cond(), self.num(), self.num()))
+                elif k < 0.9:
+                    self.emit("if %s { if %s { return %s; } else { return %s; } } else { print(%s); }" % (
+                        self.cond(), self.cond(), self.num(), self.num(), self.expr()))
+                else:
+                    # everything after this statement in the function is unreachable
+                    self.emit("if %s { return %s; } else { return %s; }" % (self.cond(), self.num(), self.num()))
             else:
                 self.emit("print(1);")
         else:
